@@ -222,8 +222,12 @@ pub(crate) async fn handle_run<'a>(
     if cfg.targets.is_empty() {
         return Err(MonorailError::from("No configured targets"));
     }
+    #[cfg(pnordahl_monorail_verif)]
+    crate::verif::point("run.begin");
     let mut tracking_run = get_next_tracking_run(cfg, &tracking_table)?;
     let run_path = setup_run_path(cfg, tracking_run.id, work_path)?;
+    #[cfg(pnordahl_monorail_verif)]
+    crate::verif::point("run.after_setup_path");
     let commands = get_all_commands(cfg, &input.commands, &input.sequences)?;
     let mut argmap = ArgMap::new();
     let mut checkpointed = false;
@@ -301,6 +305,8 @@ pub(crate) async fn handle_run<'a>(
         &argmap,
     )?;
 
+    #[cfg(pnordahl_monorail_verif)]
+    crate::verif::point("run.after_plan");
     let run_output = run_internal(
         cfg,
         plan,
@@ -311,11 +317,17 @@ pub(crate) async fn handle_run<'a>(
     )
     .await?;
 
+    #[cfg(pnordahl_monorail_verif)]
+    crate::verif::point("run.after_exec");
     // Store the run output record
     store_run_output(&run_output, &run_path)?;
+    #[cfg(pnordahl_monorail_verif)]
+    crate::verif::point("run.after_store");
 
     // Update the run counter
     tracking_run.save()?;
+    #[cfg(pnordahl_monorail_verif)]
+    crate::verif::point("run.after_save");
     Ok(run_output)
 }
 
@@ -827,6 +839,8 @@ async fn schedule_task(
                 &plan_target.command_args,
             )?;
             let handle = join_set.spawn(async move { task.run(child).await });
+            #[cfg(pnordahl_monorail_verif)]
+            crate::verif::point("task.after_spawn");
             abort_table.insert(handle.id(), task_id);
         } else {
             let status = RunStatus::NotExecutable;
@@ -970,14 +984,24 @@ async fn process_plan(
 
             crr.target_groups.push(result_target_group);
 
+            #[cfg(pnordahl_monorail_verif)]
+            crate::verif::point("group.before_shutdown");
             for client in compressor_clients {
                 client.0.shutdown().await?;
+                #[cfg(pnordahl_monorail_verif)]
+                crate::verif::point("group.between_shutdown");
                 client.1.shutdown().await?;
+                #[cfg(pnordahl_monorail_verif)]
+                crate::verif::point("group.between_shutdown");
             }
+            #[cfg(pnordahl_monorail_verif)]
+            crate::verif::point("group.before_join");
             // Unwrap for thread dyn Any panic contents, which isn't easily mapped to a MonorailError
             // because it doesn't impl Error; however, the internals of this handle do, so they
             // will get propagated.
             compressor_handle.join().unwrap()?;
+            #[cfg(pnordahl_monorail_verif)]
+            crate::verif::point("group.after_join");
         }
         results.push(crr);
     }
@@ -1016,9 +1040,13 @@ fn store_run_output(run_output: &RunOutput, run_path: &path::Path) -> Result<(),
         .truncate(true)
         .open(run_path.join(result::RESULT_OUTPUT_FILE_NAME))
         .map_err(|e| MonorailError::Generic(e.to_string()))?;
+    #[cfg(pnordahl_monorail_verif)]
+    crate::verif::point("result.after_open");
     let bw = BufWriter::new(run_result_file);
     let mut encoder = zstd::stream::write::Encoder::new(bw, 3)?;
     serde_json::to_writer(&mut encoder, run_output)?;
+    #[cfg(pnordahl_monorail_verif)]
+    crate::verif::point("result.after_write");
     encoder.finish()?;
     Ok(())
 }
